@@ -27,7 +27,7 @@ ValsOf(k) ==
     [] k = "context_behavior" -> {S("django"), S("isolated"), S("bogus")}
                                  \cup (IF Rich THEN {S("Isolated"), S("")} ELSE {})
     [] k = "template_cache_size" -> {I(0), I(2), I(150), NoneV} \cup (IF Rich THEN {I(1), I(128)} ELSE {})
-    [] k = "dynamic_component_name" -> {S("dynamic"), S("vfx_dyn")} \cup (IF Rich THEN {S("Dyn-2")} ELSE {})
+    [] k = "dynamic_component_name" -> {S("dynamic"), S("vfx_dyn")} \cup (IF Rich THEN {S("Dyn2")} ELSE {})
     [] k = "cache" -> {NoneV, S("vfx-alt")}
     [] k = "dirs" -> {L(<<>>), L(<<"/vfx/a">>), L(<<"path:/vfx/a", "/vfx/b">>)}
                      \cup (IF Rich THEN {L(<<"tuple:pre:/vfx/a">>)} ELSE {})
@@ -67,9 +67,16 @@ MCInit == SInit /\ base = Base0 /\ last = NoCall
 \* With VIEW View every settings state is expanded exactly once, so every transition of the
 \* settings graph is generated - and exported - exactly once.
 Step(act, c) ==
+  LET mut == c.op \notin {"read", "regread"} IN
   /\ act /\ last' = c
   /\ Out([call |-> c, pre |-> Conf(user, form, base), post |-> Conf(user', form', base'),
-          ret |-> ret', after |-> After(user', form', base'), dev |-> DevAfter(user', form', base'),
+          ret |-> ret',
+          \* after a change: what a read of every accessor may return next
+          after |-> IF mut THEN After(user', form', base') ELSE {},
+          \* ... and what a registry without own settings, created before the call, answers
+          afterreg |-> IF mut THEN {[k |-> k, adm |-> RegAdm(user', form', base', k, Absent, Absent)] :
+                                      k \in RegReads} ELSE {},
+          dev |-> IF mut THEN DevAfter(user', form', base') ELSE {},
           devkey |-> IF c.op = "read" THEN DevKey(user, form, c.k) ELSE "",
           devret |-> IF c.op = "read" THEN DevAdm(user, form, base, c.k) ELSE {}])
 
@@ -122,6 +129,9 @@ ExportStartup ==
        multiline |-> Multiline(user, form, base),
        cached |-> {[n |-> n, c |-> CachedAfter(user, form, base, n)] : n \in CompileCounts},
        fresh |-> FreshRegistryBehavior(user, form, base),
+       watch |-> WatchesFiles(user, form, base),
+       autod |-> Autodiscovers(user, form, base),
+       libs |-> LibrariesLoaded(user, form, base),
        mayfail |-> MayFail,
        devkey |-> DevKey(user, form, "template_cache_size"),
        devcached |-> {[n |-> n, c |-> {CachedAfterOne(n, bd) :
